@@ -73,6 +73,7 @@ func (ip *Interp) resetPath(w Work) {
 	ip.stubMemo = map[string]Str{}
 	ip.fs = newFS()
 	ip.parsed = nil
+	ip.provided = map[string]Value{}
 }
 
 // RunPath executes the harness once along the path selected by prefix.
